@@ -149,7 +149,7 @@ def to_trace(res):
         elif e["ev"] == "answer":
             evs.append({"ev": "answer", "q": e["q"], "result": e["result"], "to": e["to"]})
         elif e["ev"] == "return":
-            evs.append({"ev": "return", "rows": e["rows"], "children": e["children"]})
+            evs.append({"ev": "return", "rows": e["rows"], "children": e["children"], **({"cfg": e["cfg"], "cols": e["cols"]} if "cfg" in e else {})})
         elif e["ev"] == "raise":
             evs.append({"ev": "raise", "exc": e["exc"], "children": e.get("children", 0)})
         elif e["ev"] == "new":
@@ -281,7 +281,7 @@ def repo_test_traces(chk: Check, tier: str):
             elif e["ev"] == "answer":
                 tr.append({"ev": "answer", "q": qid.get(e["text"], 0), "result": e["result"], "to": e["to"]})
             elif e["ev"] == "return":
-                tr.append({"ev": "return", "rows": e["rows"], "children": e["children"]})
+                tr.append({"ev": "return", "rows": e["rows"], "children": e["children"], **({"cfg": e["cfg"], "cols": e["cols"]} if "cfg" in e else {})})
             elif e["ev"] == "raise":
                 tr.append({"ev": "raise", "exc": e["exc"]})
             elif e["ev"] != "new":
